@@ -121,7 +121,12 @@ def run(ck):
                     for k_, b_ in enumerate(bad):
                         ck.report("C19:%s:wrong-result#%d" % (name, k_), "R-result-from-relations", "%s:%s" % (fn.file, fn.line), "%s: %s" % (name, b_))
                 except relval.Undecidable as e:
-                    ck.fail_broken("%s: result clause not decidable on this shape: %s" % (name, e))
+                    if viol and "conditional branch" in str(e):
+                        # the loop body branches on the compared data: that is the violation of the first clause reported above, and the reason
+                        # why the result clause has nothing to interpret -- not a second, 'analysis broken' verdict
+                        per["%s@%s" % (name, ol)]["result_clause"] = dict(not_interpreted="the loop body branches on data (reported by the data-independence clause)")
+                    else:
+                        ck.fail_broken("%s: result clause not decidable on this shape: %s" % (name, e))
     fx = selftest(ck)
     cov = dict(explanation="Taint analysis over the SSA IR of the two timingsafe functions (%s): sources = every load through a pointer derived from "
                "either region parameter (and results of calls reading them); sinks = branch/switch/select conditions, load/store addresses, "
